@@ -684,6 +684,10 @@ fn canon(h: &[HOp]) -> u64 {
     fnv(&v)
 }
 
+pub fn tags_for_pub(h: &[HOp], init: &KS) -> Vec<&'static str> {
+    tags_for("", h, init)
+}
+
 fn tags_for(prop: &str, h: &[HOp], init: &KS) -> Vec<&'static str> {
     let rmw = h.iter().any(|o| matches!(o.cmd, Cmd::Store { op: op::ADD | op::REPLACE, .. } | Cmd::Concat { .. } | Cmd::Counter { .. }));
     let _ = prop;
@@ -725,6 +729,32 @@ pub fn plans_for(p: &Program, events: &[(usize, &'static str)]) -> Vec<Vec<Park>
         }
     }
     plans
+}
+
+/// nested parks for three clients: `a` parks at one of its points until both others are done, `b`
+/// parks at one of its points until the third client is done (so the third runs first, then `b`
+/// resumes inside its window, then `a`): both release orders arise from the choice of (a, b)
+pub fn plans2_for(p: &Program, events: &[(usize, &'static str)]) -> Vec<Vec<Park>> {
+    let n = p.clients.len();
+    if n != 3 {
+        return vec![];
+    }
+    let singles = plans_for(p, events);
+    let mut out = vec![];
+    for pa in &singles {
+        for pb in &singles {
+            let (a, b) = (pa[0].client, pb[0].client);
+            if a == b {
+                continue;
+            }
+            let c = 3 - a - b;
+            out.push(vec![
+                Park { client: a, point: pa[0].point, nth: pa[0].nth, wait_for: vec![b, c] },
+                Park { client: b, point: pb[0].point, nth: pb[0].nth, wait_for: vec![c] },
+            ]);
+        }
+    }
+    out
 }
 
 struct Shared {
@@ -893,6 +923,18 @@ pub fn run(ctx: &Ctx) -> i32 {
                         for _ in 0..3.min(plans.len()) {
                             let pl = &plans[r2.gen_range(0..plans.len())];
                             scheds.push((format!("park c{} at {}#{}", pl[0].client, pl[0].point, pl[0].nth), Sched::Plan(pl.clone())));
+                        }
+                    }
+                    if !miri && pm.clients.len() == 3 {
+                        let p2 = plans2_for(&pm, &d.events);
+                        let mut r2 = SmallRng::seed_from_u64(ctx.case_seed("lin-plan2", i));
+                        let take = if ctx.thorough() { 24 } else { 4 };
+                        for _ in 0..take.min(p2.len()) {
+                            let pl = &p2[r2.gen_range(0..p2.len())];
+                            scheds.push((
+                                format!("nested c{} at {}#{} / c{} at {}#{}", pl[0].client, pl[0].point, pl[0].nth, pl[1].client, pl[1].point, pl[1].nth),
+                                Sched::Plan(pl.clone()),
+                            ));
                         }
                     }
                     let reps = if miri { 1 } else { 2 };
